@@ -5,7 +5,8 @@
     mini-sh is validated against the real /bin/sh on every run of the correspondence check.
     [after_env e s] is the shell state [s] in which every key of [e] is bound to its value minus
     trailing newlines and exported, and nothing else is changed. *)
-From GC Require Import Common.Base Model.Shell Proofs.Shell.
+From GC Require Import Common.Base Model.Shell Proofs.Shell Proofs.C18More.
+From Coq Require Import Permutation.
 
 (** * Current builders: every value is emitted as a single-quoted assignment word *)
 
@@ -253,3 +254,191 @@ Example C18_ex_setall :
   env_set_all [([65], [49])] [([66], [50]); ([66;45], [51])] = Err /\
   env_set_all [([65], [49])] [([66], [50]); ([65], [51])] = Ok [([65], [51]); ([66], [50])].
 Proof. vm_compute. split; reflexivity. Qed.
+
+(** * Proof audit: histories, iteration order, names (lemmas in Proofs/C18More.v) *)
+
+(** END TO END.  [env_run h []] is the Environments object after the calls [h] (Set / SetAll,
+    accepted or refused: a refused call leaves the object as it was); [ref_lookup h k] is the value
+    of the last accepted write to [k] in [h], computed from the history alone.  For EVERY history,
+    EVERY order [e] in which the Go map iteration hands the store to the builder, every entrypoint
+    and every initial shell state, the sshsb script is the entrypoint run in a state that differs
+    from [s] exactly by: every name with a last accepted write [v] is bound to [v] and exported.
+    The hypotheses "valid keys" and "distinct keys" of [C18_verbatim_ssh] are DISCHARGED here from
+    the API (they hold on every reachable object); what is left is the validity domain of the
+    shell model (no NUL byte). *)
+Theorem C18_history_ssh : forall (h : list env_op) (e : env) (entry : bytes) (s : shst),
+  Permutation e (env_run h []) ->
+  Forall (fun kv => no_nul (snd kv) = true) e ->
+  exists s',
+    sh_run s (ssh_script e entry) = sh_run s' (entry ++ [NL]) /\
+    sh_effects s' = sh_effects s /\
+    (forall k, lookup k (sh_store s') = or_else (ref_lookup h k) (lookup k (sh_store s))) /\
+    (forall k, In k (sh_exported s') <-> ref_lookup h k <> None \/ In k (sh_exported s)).
+Proof. exact history_ssh. Qed.
+Print Assumptions C18_history_ssh.
+
+Theorem C18_history_dcmd : forall (h : list env_op) (e : env) (tag pub sec script : bytes) (s : shst),
+  Permutation e (env_run h []) ->
+  Forall (fun kv => no_nul (snd kv) = true) e ->
+  dcmd_script e tag pub sec = Ok script ->
+  exists s',
+    (exists tail, cert_tail tag pub sec = Ok tail /\ sh_run s script = sh_run s' tail) /\
+    (is_nil pub && is_nil sec = true -> sh_run s script = Done s') /\
+    sh_effects s' = sh_effects s /\
+    (forall k, lookup k (sh_store s') = or_else (ref_lookup h k) (lookup k (sh_store s))) /\
+    (forall k, In k (sh_exported s') <-> ref_lookup h k <> None \/ In k (sh_exported s)).
+Proof. exact history_dcmd. Qed.
+Print Assumptions C18_history_dcmd.
+
+(** The object over ALL histories: only names that match the pattern, no name twice; it IS the
+    reference map; a refused call (any name of it outside the pattern) changes nothing. *)
+Theorem C18_history_store : forall (h : list env_op),
+  store_ok (env_run h []) /\
+  (forall k, lookup k (env_run h []) = ref_lookup h k) /\
+  (forall k v, In (k, v) (env_run h []) <-> ref_lookup h k = Some v) /\
+  (forall o, op_accepted o = false -> env_run (h ++ [o]) [] = env_run h []).
+Proof. exact history_store. Qed.
+Print Assumptions C18_history_store.
+
+(** The reference is "the last accepted write wins": one more call / one more Set. *)
+Theorem C18_history_last_write : forall h o k,
+  ref_lookup (h ++ [o]) k = or_else (op_write o k) (ref_lookup h k).
+Proof. exact ref_lookup_last. Qed.
+Print Assumptions C18_history_last_write.
+
+Theorem C18_history_set : forall h k v k',
+  ref_lookup (h ++ [OSet k v]) k' = if valid_key k && bytes_eqb k' k then Some v else ref_lookup h k'.
+Proof. exact ref_lookup_set. Qed.
+Print Assumptions C18_history_set.
+
+(** The iteration order of the Go map (not deterministic) is irrelevant: two orders of one map
+    give shell states with the same effects, the same value for EVERY variable and the same
+    exported names. *)
+Theorem C18_order_irrelevant : forall (e e' : env) (s : shst),
+  Permutation e e' -> NoDup (map fst e) ->
+  sh_effects (after_env_exact e s) = sh_effects (after_env_exact e' s) /\
+  (forall k, lookup k (sh_store (after_env_exact e s)) = lookup k (sh_store (after_env_exact e' s))) /\
+  (forall k, In k (sh_exported (after_env_exact e s)) <-> In k (sh_exported (after_env_exact e' s))).
+Proof. exact order_irrelevant. Qed.
+Print Assumptions C18_order_irrelevant.
+
+(** Names.  The verbatim theorems hold for EVERY shell Name as key (digits, leading underscore
+    too): these two supersede [C18_verbatim_ssh] / [C18_verbatim_dcmd] (weaker hypothesis by
+    [C18_names], same conclusion) ... *)
+Theorem C18_verbatim_names_ssh : forall (e : env) (entry : bytes) (s : shst),
+  Forall (fun kv => is_name (fst kv) = true) e ->
+  NoDup (map fst e) ->
+  Forall (fun kv => no_nul (snd kv) = true) e ->
+  sh_run s (ssh_script e entry) = sh_run (after_env_exact e s) (entry ++ [NL]) /\
+  sh_effects (after_env_exact e s) = sh_effects s /\
+  (forall k v, In (k, v) e -> lookup k (sh_store (after_env_exact e s)) = Some v /\ In k (sh_exported (after_env_exact e s))) /\
+  (forall k, ~ In k (map fst e) ->
+             lookup k (sh_store (after_env_exact e s)) = lookup k (sh_store s) /\
+             (In k (sh_exported (after_env_exact e s)) <-> In k (sh_exported s))).
+Proof. exact verbatim_names_ssh. Qed.
+Print Assumptions C18_verbatim_names_ssh.
+
+Theorem C18_verbatim_names_dcmd : forall (e : env) (tag pub sec script : bytes) (s : shst),
+  Forall (fun kv => is_name (fst kv) = true) e ->
+  NoDup (map fst e) ->
+  Forall (fun kv => no_nul (snd kv) = true) e ->
+  dcmd_script e tag pub sec = Ok script ->
+  (exists tail, cert_tail tag pub sec = Ok tail /\ sh_run s script = sh_run (after_env_exact e s) tail) /\
+  (is_nil pub && is_nil sec = true -> sh_run s script = Done (after_env_exact e s)) /\
+  sh_effects (after_env_exact e s) = sh_effects s /\
+  (forall k v, In (k, v) e -> lookup k (sh_store (after_env_exact e s)) = Some v /\ In k (sh_exported (after_env_exact e s))) /\
+  (forall k, ~ In k (map fst e) ->
+             lookup k (sh_store (after_env_exact e s)) = lookup k (sh_store s) /\
+             (In k (sh_exported (after_env_exact e s)) <-> In k (sh_exported s))).
+Proof. exact verbatim_names_dcmd. Qed.
+Print Assumptions C18_verbatim_names_dcmd.
+
+(** ... the accepted pattern lies strictly inside the shell Names ... *)
+Theorem C18_names_strictly_inside :
+  (forall k, valid_key k = true -> is_name k = true) /\
+  (exists k, is_name k = true /\ valid_key k = false).
+Proof. exact valid_key_strictly_inside. Qed.
+Print Assumptions C18_names_strictly_inside.
+
+(** ... and the check at Set / SetAll is NECESSARY: the builders do not look at the names, so
+    "verbatim for every key" is false.  Two names that Set and SetAll refuse; had they reached a
+    builder, the first rebinds B (a variable that is not configured), the second runs a command.
+    (The same two scripts on the real /bin/sh: B=pwn, file canary created.) *)
+Theorem C18_unchecked_name_refuted :
+  valid_key BADK_ASSIGN = false /\ valid_key BADK_SUBST = false /\
+  env_set [] BADK_ASSIGN [118] = Err /\ env_set_all [] [(KEY_A, [118]); (BADK_SUBST, [118])] = Err /\
+  (exists s', sh_run sh_b (ssh_script [(BADK_ASSIGN, [118])] []) = Done s' /\
+              ~ In KEY_B (map fst [(BADK_ASSIGN, [118])]) /\
+              lookup KEY_B (sh_store sh_b) = Some V_OLD /\ lookup KEY_B (sh_store s') = Some V_PWNED) /\
+  (exists script s', dcmd_script [(BADK_SUBST, [118])] TAGA [] [] = Ok script /\
+              sh_run sh_b script = Done s' /\ In (Exec V_PWN) (sh_effects s')).
+Proof. exact bad_name_witness. Qed.
+Print Assumptions C18_unchecked_name_refuted.
+
+(** dcmd.InitSequence never panics and fails exactly when one half of the certificate is missing,
+    whatever the environment is: the hypothesis [dcmd_script .. = Ok script] of the dcmd theorems
+    is met by every environment. *)
+Theorem C18_dcmd_total : forall (e : env) (tag pub sec : bytes),
+  dcmd_script e tag pub sec <> Panic /\
+  (dcmd_script e tag pub sec = Err <-> is_nil pub <> is_nil sec) /\
+  (is_nil pub = is_nil sec ->
+   exists tail, cert_tail tag pub sec = Ok tail /\
+                dcmd_script e tag pub sec = Ok (HEADER ++ env_section_sq e ++ tail)).
+Proof. exact dcmd_total. Qed.
+Print Assumptions C18_dcmd_total.
+
+(** Non-vacuity of the additions. *)
+(** one object: accepted Set (hostile value), refused Set, refused SetAll, accepted SetAll that
+    overwrites, another Set; then an iteration order different from the store's, both builders
+    (dcmd with a certificate) *)
+Example C18_ex_history :
+  env_run H_EX [] = [([67;95;100], []); (KEY_A, V_EACUTE); (KEY_B, SQ :: V_DHOME ++ [BQ; BSL; NL; NL])] /\
+  map op_accepted H_EX = [true; false; false; true; true] /\
+  ref_lookup H_EX KEY_A = Some V_EACUTE /\
+  ref_lookup H_EX KEY_B = Some (SQ :: V_DHOME ++ [BQ; BSL; NL; NL]) /\
+  ref_lookup H_EX [65;49] = None /\ ref_lookup H_EX [66;45] = None /\
+  let e := [(KEY_B, SQ :: V_DHOME ++ [BQ; BSL; NL; NL]); ([67;95;100], []); (KEY_A, V_EACUTE)] in
+  Permutation e (env_run H_EX []) /\
+  Forall (fun kv => no_nul (snd kv) = true) e /\
+  (exists s', sh_run sh0 (ssh_script e [115;104]) = Done s' /\
+              lookup KEY_B (sh_store s') = Some (SQ :: V_DHOME ++ [BQ; BSL; NL; NL]) /\
+              lookup KEY_A (sh_store s') = Some V_EACUTE /\
+              lookup HOME_K (sh_store s') = Some HOME_V /\
+              sh_effects s' = [Cmd [115;104]]) /\
+  (exists script s', dcmd_script e TAGA [112] [115] = Ok script /\
+              sh_run sh0 script = Done s' /\
+              lookup KEY_B (sh_store s') = Some (SQ :: V_DHOME ++ [BQ; BSL; NL; NL]) /\
+              existsb is_exec (sh_effects s') = false).
+Proof. exact history_example. Qed.
+
+Example C18_ex_names_beyond_pattern :
+  let e := [([95;65;49], V_DHOME); ([120;50], V_SUBST)] in
+  Forall (fun kv => is_name (fst kv) = true) e /\ NoDup (map fst e) /\
+  Forall (fun kv => no_nul (snd kv) = true) e /\
+  map valid_key (map fst e) = [false; false] /\
+  exists s', sh_run sh0 (ssh_script e []) = Done s' /\
+             lookup [95;65;49] (sh_store s') = Some V_DHOME /\ lookup [120;50] (sh_store s') = Some V_SUBST /\
+             existsb is_exec (sh_effects s') = false.
+Proof. exact names_example. Qed.
+
+(** two orders of one map: the stores differ as lists, every lookup agrees *)
+Example C18_ex_order :
+  let e := [(KEY_A, V_DHOME); (KEY_B, V_SUBST)] in
+  let e' := [(KEY_B, V_SUBST); (KEY_A, V_DHOME)] in
+  Permutation e e' /\ NoDup (map fst e) /\
+  sh_store (after_env_exact e sh0) <> sh_store (after_env_exact e' sh0) /\
+  map (fun k => lookup k (sh_store (after_env_exact e sh0))) [KEY_A; KEY_B; HOME_K]
+  = map (fun k => lookup k (sh_store (after_env_exact e' sh0))) [KEY_A; KEY_B; HOME_K].
+Proof. exact order_example. Qed.
+
+(** names the shells reserve (OPTIND RANDOM SRANDOM HISTCMD SECONDS LINENO UID PPID SHELLOPTS IFS
+    PATH) are plain identifiers and ARE accepted: limit of the names clause, open finding K-C18b;
+    the mini-sh treats every name alike *)
+Example C18_ex_reserved_names_accepted : forallb valid_key RESERVED_NAMES = true.
+Proof. exact reserved_names_accepted. Qed.
+
+Example C18_ex_dcmd_total :
+  dcmd_script [(KEY_A, V_SUBST)] TAGA [112] [] = Err /\ dcmd_script [(KEY_A, V_SUBST)] TAGA [] [115] = Err /\
+  (exists sc, dcmd_script [(KEY_A, V_SUBST)] TAGA [112] [115] = Ok sc) /\
+  (exists sc, dcmd_script [(KEY_A, V_SUBST)] TAGA [] [] = Ok sc).
+Proof. exact dcmd_total_example. Qed.
